@@ -18,7 +18,7 @@ func init() {
 	ev.Register(&ev.Check{
 		ID:             "C03",
 		Level:          "exploration",
-		Rule:           "families, each enumerated completely: (1) ALL ordered pairs of user types from a pool of 10 bodies (integer, ranged integer, string, min-length string, two objects, two arrays, boolean, float) + a derived third type (alias / or) x 12 root constructs (@A, @A|@B, via alias, same type via two paths, {type:\"@A\"}, or-lists with names / {type:\"@A\"} / inline rule-sets / JSON kinds) x nullable x 6 positions (root, property, array element, arrays with minItems / maxItems) x ALL documents <= 3 nodes over 6 scalars and keys k,l,p (arrays of <= 3 elements for array positions); (2) allOf: 9 parent/child configurations (depth <= 2, lists, optional keys) x 4 additionalProperties settings x ALL 1024 objects over 5 keys x 3 values; (3) additionalProperties: 12 settings x 60 objects; (4) key shortcuts: 5 key types x required/optional/optional-by-default x 2 layouts x ALL objects with <= 3 members over 6 keys. Oracles: three-valued reference set semantics; differentials verdict(@A|@B) == verdict(@A) or verdict(@B). Non-trivial = distinct (schema, environment, document) with decided reference.",
+		Rule:           "families, each enumerated completely: (1) ALL ordered pairs of user types from a pool of 10 bodies (integer, ranged integer, string, min-length string, two objects, two arrays, boolean, float) + a derived third type (alias / or) x 15 root constructs (@A, @A|@B, via alias, same type via two paths, {type:\"@A\"}, or-lists with names / {type:\"@A\"} / inline rule-sets (also with nullable next to the type) / JSON kinds) x nullable x 6 positions (root, property, array element, arrays with minItems / maxItems) x ALL documents <= 3 nodes over 6 scalars and keys k,l,p (arrays of <= 3 elements for array positions); (2) allOf: 9 parent/child configurations (depth <= 2, lists, optional keys) x 4 additionalProperties settings x ALL 1024 objects over 5 keys x 3 values; (3) additionalProperties: 12 settings x 60 objects; (4) key shortcuts: 5 key types x required/optional/optional-by-default x 2 layouts x ALL objects with <= 3 members over 6 keys. Oracles: three-valued reference set semantics; differentials verdict(@A|@B) == verdict(@A) or verdict(@B). Non-trivial = distinct (schema, environment, document) with decided reference.",
 		Run:            run,
 		Replay:         replay,
 		QuickBudget:    80 * time.Second,
@@ -104,6 +104,21 @@ func rootConstructs() []rootCons {
 				return e.With(gen.RL("or", lit(`"@B"`), lit(`"@A"`)))
 			}
 			return nil
+		}},
+		{"or:[{type:@A,nullable},{string}]", func(a, b *gen.Node) *gen.Node {
+			if e := scalarEx(a); e != nil {
+				return e.With(gen.RL("or", gen.RuleItem{Set: []gen.Rule{gen.R("type", `"@A"`), gen.R("nullable", "true")}}, gen.RuleItem{Set: []gen.Rule{gen.R("type", `"string"`)}}))
+			}
+			return nil
+		}},
+		{"or:[{boolean},{nullable,type:@A}]", func(a, b *gen.Node) *gen.Node {
+			if e := scalarEx(a); e != nil {
+				return e.With(gen.RL("or", gen.RuleItem{Set: []gen.Rule{gen.R("type", `"boolean"`)}}, gen.RuleItem{Set: []gen.Rule{gen.R("nullable", "true"), gen.R("type", `"@A"`)}}))
+			}
+			return nil
+		}},
+		{"or:[{integer,nullable},@B]", func(a, b *gen.Node) *gen.Node {
+			return gen.Int("1").With(gen.RL("or", gen.RuleItem{Set: []gen.Rule{gen.R("type", `"integer"`), gen.R("nullable", "true")}}, lit(`"@B"`)))
 		}},
 		{"or:[{type:@A},{type:@B}]", func(a, b *gen.Node) *gen.Node {
 			if e := scalarEx(a); e != nil {
